@@ -7,10 +7,12 @@
    (mailbox objects, the ZIP archive: released by reference counting), and the
    point where handler look-up raises FileNotFound.
 
-   The fault: the k-th write (counting from 0) raises an error of class c, and so
-   does every later write.  c is EPIPE / ECONNRESET — OSError(errno, msg), two
-   arguments — or TIMEOUT — socket.timeout("timed out"), ONE argument, strerror
-   None.
+   The fault is a pattern `fails : nat -> bool`: the write with index i (counting
+   from 0) raises an error of class c exactly when `fails i` — a connection that
+   is gone for good (every write from k on), one that fails once and recovers, one
+   that fails for n writes, or anything else.  c is EPIPE / ECONNRESET —
+   OSError(errno, msg), two arguments — or TIMEOUT — socket.timeout("timed out"),
+   ONE argument, strerror None.
 
    protocol.handle() is modelled from its `hspec`, server.GopherRequestHandler
    .handle from `sspec`; the specs of the current source are Gen/Conn.v
@@ -49,10 +51,11 @@ Record st := St {
 Inductive res := Ok | Raise (x : exn).
 
 Section Fault.
-Variable k : nat.         (* index of the first failing write *)
+Variable fails : nat -> bool.   (* which write indices raise *)
 Variable c : ioclass.
 
-Definition faulted (s : st) : bool := k <? nw s.
+(* has a write failed so far? *)
+Definition faulted (s : st) : bool := existsb fails (seq 0 (nw s)).
 Definition add_log (l : logcls) (addr : bool) (s : st) : st :=
   St (nw s) (depth s) (refs s) (Entry l addr (faulted s) :: log s).
 
@@ -61,7 +64,7 @@ Definition unwind (s : st) : st := St (nw s) 0 (refs s) (log s).
 
 Definition do_write (s : st) : res * st :=
   let s1 := St (S (nw s)) (depth s) (refs s) (log s) in
-  if k <=? nw s then (Raise (XIO c), s1) else (Ok, s1).
+  if fails (nw s) then (Raise (XIO c), s1) else (Ok, s1).
 
 Fixpoint run_actions (acts : list action) (s : st) : res * st :=
   match acts with
@@ -196,6 +199,11 @@ Fixpoint final_depth (acts : list action) (d : nat) : option nat :=
   end.
 Definition balanced (acts : list action) : Prop := final_depth acts 0 = Some 0.
 
+(* the fault patterns the harness enumerates: writes k .. k+n-1 fail (n = None:
+   every write from k on) *)
+Definition window (k : nat) (n : option nat) (i : nat) : bool :=
+  (k <=? i) && match n with None => true | Some d => i <? k + d end.
+
 (* ---- the protocol classes (by their handle() method) and the pinned specs ---- *)
 Inductive pclass := PCBase | PCGopherPlus | PCHttp | PCWap | PCGemini | PCSpartan.
 Definition all_pclass : list pclass := [PCBase; PCGopherPlus; PCHttp; PCWap; PCGemini; PCSpartan].
@@ -212,15 +220,19 @@ Definition pinned_spec (p : pclass) : hspec :=
 Definition pinned_server : sspec := [(FIOError, true); (FException, true)].
 
 (* what a specification must satisfy for the failure to be logged under its own
-   class (decidable; evaluated on the generated specs) *)
-Definition first_nf_plain (l : list nfstep) : bool :=
-  match l with NfW :: _ => true | _ => false end.
+   class for EVERY fault pattern (decidable; evaluated on the generated specs):
+   a handler whose writes are inside the try must log the error itself (the reply
+   it then writes may well succeed on a connection that recovered), must not
+   index e.args, and may use e.strerror (None for a one-argument error) only if
+   no write of the reply pushes the message through html.escape *)
+Definition nf_plain (a : nfstep) : bool := match a with NfW => true | NfWEscape => false end.
 Definition spec_ok (h : hspec) : bool :=
-  (negb (body_in_try h) ||
+  negb (body_in_try h) ||
+  (io_logs h &&
    match io_msg h with
    | MArgs1 => false
-   | MStrerror => first_nf_plain (nf_steps h)
-   | MStrerrorOrStr => match nf_steps h with [] => io_logs h | _ => true end
+   | MStrerror => forallb nf_plain (nf_steps h)
+   | MStrerrorOrStr => true
    end).
 Definition server_ok (sp : sspec) : bool :=
   match sp with
